@@ -217,6 +217,9 @@ def c19(ctx):
     sparse, dense, trunc = c.get("sparse", 1), c.get("dense", 0.001), c.get("trunc", -1)
     nops = ctx.nops
     for si, rec in enumerate(ctx.records):
+        if rec.kind == "act" and rec.action in (0, 1) and isinstance(rec.error, ZeroDivisionError):
+            yield F("reward-zero-division", f"reward computation raised ZeroDivisionError (T_max={env.max_allowed_time}, LB={env.lower_bound})", si)
+            return
         if rec.kind != "act" or rec.action not in (0, 1) or rec.error is not None:
             continue
         r = rec.reward
